@@ -13,7 +13,7 @@
     is persisted before its first number is handed out (DESIGN.md section 2). *)
 From Coq Require Import List ZArith NArith Bool Lia.
 From DH Require Import Lib.CheckLib Model.Store Model.FeedSpec Model.Crash Proofs.StoreProofs Proofs.CrashStore
-     Proofs.CrashProofs Proofs.CrashCounter Proofs.CrashCount Check.StoreCheck Check.C04Check Proofs.C04CheckProofs Proofs.C04Link.
+     Proofs.CrashProofs Proofs.CrashCounter Proofs.CrashCount Check.StoreCheck Check.C04Check Proofs.C04CheckProofs Proofs.C04Link Model.CrashExt Proofs.CrashExtProofs.
 Import ListNotations.
 Open Scope Z_scope.
 
@@ -213,6 +213,72 @@ Theorem C04_agree_fixed_implies_spec : forall t, wf_tcase_full t -> agree v_fixe
   ids_stable (t_after t) (t_final t) = true -> spec_ok t = true.
 Proof. exact agree_fixed_implies_spec_ok. Qed.
 Print Assumptions C04_agree_fixed_implies_spec.
+
+(** ** Batch length, refused batches, dataset deletion (seeded changes of round 2) *)
+
+(** A batch is ONE write whatever its length: the statement of C04_atomic_step for a batch, the entity list [ents]
+    universally quantified (no bound on its length appears anywhere in the model or the proofs). *)
+Theorem C04_batch_atomic_any_length : forall cm fl dm c ds (ents : list ent) k,
+  let o := WBatch ds ents in
+  let r := crash_at cm fl dm k c o in
+  ((k <= commit_index cm fl dm c o)%nat -> data_eq (cs_store r) (cs_store c))
+  /\ ((k > commit_index cm fl dm c o)%nat -> data_eq (cs_store r) (apply_wop fl dm (cs_store c) o)).
+Proof. intros cm fl dm c ds ents k. exact (crash_data cm fl dm c (WBatch ds ents) k). Qed.
+Print Assumptions C04_batch_atomic_any_length.
+
+(** A batch written in slices (each with its own commit) is not: dying in the second slice leaves the first one in. *)
+Theorem C04_sliced_refuted :
+  let fl := {| f_lenkeys := false; f_objneq := true |} in
+  let c := run_events CounterSeparate fl DupLocalElseStored (firstn 1 (sliced 1 [[sl_e 1]; [sl_e 2]])) (cstate0 5 1000) in
+  length (d_entries (get_ds (cs_store (crash_at CounterSeparate fl DupLocalElseStored 0 c (WBatch 1 [sl_e 2]))) 1)) = 1%nat
+  /\ length (d_entries (get_ds (cs_store (exec_op CounterSeparate fl DupLocalElseStored (cstate0 5 1000) (WBatch 1 [sl_e 1; sl_e 2]))) 1)) = 2%nat.
+Proof. exact sliced_refuted. Qed.
+Print Assumptions C04_sliced_refuted.
+
+(** The shared rolling identifier transaction with several writers.  A refused batch has no effect on any shared
+    identifier state: the committed table is untouched, every pending assignment of another writer stays pending ... *)
+Theorem C04_refused_tab : forall m us s, it_tab (it_refuse m us s) = it_tab s.
+Proof. exact refuse_tab. Qed.
+Print Assumptions C04_refused_tab.
+Theorem C04_refused_keeps_pending : forall us s p, In p (it_pend s) -> In p (it_pend (it_refuse RefuseKeeps us s)).
+Proof. exact refuse_keeps_pending. Qed.
+Print Assumptions C04_refused_keeps_pending.
+
+(** ... so whatever batches of other writers are refused while a writer stands between assigning and committing its ids,
+    every URI it used is in the committed table when it is acknowledged. *)
+Theorem C04_refused_neutral : forall us1 rs s u, In u us1 -> In u (map fst (it_tab (it_interleave RefuseKeeps us1 rs s))).
+Proof. exact interleave_resolves. Qed.
+Print Assumptions C04_refused_neutral.
+
+(** Refutation of the discarding refusal (seeded change C04-r2-4). *)
+Theorem C04_refused_discard_refuted :
+  ~ In 30 (map fst (it_tab (it_interleave RefuseDiscards [30] [[50]] {| it_tab := []; it_pend := []; it_next := 5 |}))).
+Proof. exact interleave_discard_refuted. Qed.
+Print Assumptions C04_refused_discard_refuted.
+
+(** DeleteDataset in the tree's order: at EVERY crash point k and for BOTH creation options (with / without
+    publicNamespaces) the restarted hub never loads a dataset whose id is recorded as deleted; a completed delete leaves no
+    loadable record. *)
+Theorem C04_delete_no_zombie : forall k n public s, ~ In n (dr_del s) ->
+  zombie n (delete_crash true true k n public s) = false.
+Proof. exact delete_no_zombie. Qed.
+Print Assumptions C04_delete_no_zombie.
+Theorem C04_delete_done_unregistered : forall k n public s, (k >= 4)%nat ->
+  ~ In n (dr_mem (delete_crash true true k n public s)).
+Proof. exact delete_done_unregistered. Qed.
+Print Assumptions C04_delete_done_unregistered.
+
+(** Refutations of the two seeded orders: deleted set before the record (C04-2), map removal last (C04-r2-2: only datasets
+    created with publicNamespaces - the tombstone write on core.Dataset puts the record back). *)
+Theorem C04_delete_set_first_refuted :
+  zombie 1 (delete_crash true false 2 1 false {| dr_rec := [(1, false)]; dr_mem := [1]; dr_del := [] |}) = true.
+Proof. exact delete_set_first_refuted. Qed.
+Print Assumptions C04_delete_set_first_refuted.
+Theorem C04_delete_mem_last_refuted :
+  zombie 1 (delete_crash false true 5 1 true {| dr_rec := [(1, true)]; dr_mem := [1]; dr_del := [] |}) = true
+  /\ zombie 1 (delete_crash false true 5 1 false {| dr_rec := [(1, false)]; dr_mem := [1]; dr_del := [] |}) = false.
+Proof. exact delete_mem_last_refuted. Qed.
+Print Assumptions C04_delete_mem_last_refuted.
 
 (** ** Non-vacuity *)
 (* the step list of a two-dataset transaction, pinned variant: leases and releases, id commit, data commit, two counter commits *)
